@@ -118,6 +118,9 @@ def drive_c03(sess, rnd, cfg, record):
     x = rnd.random()
     klass = "modest" if x < 0.4 else ("stress" if x < 0.8 else "micro")
     cfg["c03_class"] = klass
+    cfg["rect_rs_list"] = rnd.random() < 0.03
+    if cfg["rect_rs_list"] and "Rectifier" not in cfg["kinds"]:
+        cfg["kinds"].append("Rectifier")
     cfg["w"] = dict(cfg["w"], reject=0.1, analyse=0.1, restart=0.1, observe=0.0, domfault=0.0)
     if klass == "micro":
         cfg["micro"] = True
